@@ -114,6 +114,15 @@ CHECKS["C19"] = dict(
     technique="CrossHair+z3 solver-partitioned exhaustive fan over harvested vocabulary; totality oracle on the real analysis",
     design="§4 C19")
 
+CHECKS["C13"] = dict(
+    text="Solver-partitioned exhaustive exploration of (program x read-only query sequence of length <=3 quick / <=4 thorough over 11 "
+         "queries): after every query the answer equals that of a fresh parse of the same bytes and dumps() is unchanged. Hash-seed "
+         "independence is checked by spawning fresh interpreters under three PYTHONHASHSEED values and comparing answer digests; that "
+         "part is not a solver claim and is reported separately in the evidence.",
+    technique="CrossHair+z3 solver-partitioned exhaustive fan over query sequences vs fresh parse; subprocess digest diff for hash seeds",
+    design="§4 C13",
+    note="Partial: cross-process/hash-seed independence cannot be a solver variable (checked by digest comparison, stated as such). " + TRUST)
+
 NOT_APPLICABLE = {
     "C16": "every observable sits behind zipfile/zlib/torch C-level I/O; symbolic inputs are realised at the first call so the solver has nothing to decide (DESIGN §5); the pickle-level half is covered by C08",
 }
